@@ -15,25 +15,25 @@ Record bare := mkB { bco : list bst; bholder : option nat; bq : list nat }.
 Definition bget (s : bare) (c : nat) : option bst := nth_error (bco s) c.
 
 (* events: (coroutine, 1 enter | 2 leave | 3 done) *)
+Definition bstart (s : bare) (c : nat) : bare * list Z :=
+  match bholder s with
+  | None => (mkB (bco s ++ [BIn]) (Some c) (bq s), [1; Z.of_nat c; 1])
+  | Some _ => (mkB (bco s ++ [BWait]) (bholder s) (bq s ++ [c]), [1])
+  end.
+
+Definition bopen (s : bare) (c : nat) : bare * list Z :=
+  let co1 := set_nth (bco s) c BDone in
+  match bq s with
+  | [] => (mkB co1 None [], [1; Z.of_nat c; 2; Z.of_nat c; 3])
+  | w :: rest => (mkB (set_nth co1 w BIn) (Some w) rest, [1; Z.of_nat c; 2; Z.of_nat w; 1; Z.of_nat c; 3])
+  end.
+
 Definition bstep (s : bare) (op : list Z) : bare * list Z :=
   match op with
   | [1; c; r] =>
-      if Z.eqb c (zlen (bco s)) && (0 <=? r) && (r <=? 2) then
-        let c' := Z.to_nat c in
-        match bholder s with
-        | None => (mkB (bco s ++ [BIn]) (Some c') (bq s), [1; c; 1])
-        | Some _ => (mkB (bco s ++ [BWait]) (bholder s) (bq s ++ [c']), [1])
-        end
-      else (s, [-1])
+      if Z.eqb c (zlen (bco s)) && (0 <=? r) && (r <=? 2) then bstart s (length (bco s)) else (s, [-1])
   | [2; c] =>
-      let c' := Z.to_nat c in
-      if (0 <=? c) && match bget s c' with Some BIn => true | _ => false end then
-        let co1 := set_nth (bco s) c' BDone in
-        match bq s with
-        | [] => (mkB co1 None [], [1; c; 2; c; 3])
-        | w :: rest => (mkB (set_nth co1 w BIn) (Some w) rest, [1; c; 2; Z.of_nat w; 1; c; 3])
-        end
-      else (s, [-1])
+      if (0 <=? c) && match bget s (Z.to_nat c) with Some BIn => true | _ => false end then bopen s (Z.to_nat c) else (s, [-1])
   | _ => (s, [-1])
   end.
 
